@@ -229,7 +229,9 @@ def rand_tree(r, depth, inword=False, rich=True):
         fs = []
         for _ in range(r.choice([2, 2, 3])):
             f = rand_tree(r, min(depth - 1, 2), True, rich)
-            if fs and fs[-1][0] == 'lit' and fs[-1][2] is None and (f[0] == 'lit' or (f[0] == 'many' and f[1][0] == 'lit')):
+            if fs and fs[-1][0] == 'lit' and fs[-1][2] is None and (f[0] == 'lit' or (f[0] == 'many' and f[1][0] == 'lit')) \
+                    and r.random() < 0.5:
+                # half of the time avoid a literal after a bare literal (the printer parenthesises it otherwise)
                 f = ('nt', rand_name(r)) if r.random() < 0.5 else ('opt', f)
             fs.append(f)
         return ('sub', fs)
